@@ -1,3 +1,987 @@
 package main
 
-func runProtocol(kc *kernelCtx, blocks []*Block, only string, want map[string]bool) []*Unit { return nil }
+import (
+	"fmt"
+	"go/token"
+	"go/types"
+	"sort"
+	"strings"
+
+	"golang.org/x/tools/go/ssa"
+)
+
+// ---------------------------------------------------------------------------
+// Layer P: protocol obligations, generated for every observable-constructor call
+// site of every loaded ro package, with zero or one-line annotations.
+// These are closed facts about the SSA of the site (DESIGN.md Appendix D); they are
+// reported with backend "structural" and never counted as SMT-discharged.
+// ---------------------------------------------------------------------------
+
+type pSite struct {
+	*opSite
+	Name   string
+	Top    *ssa.Function
+	Pkg    string
+	InTree map[*ssa.Function]bool
+	Dest   *ssa.Parameter
+	SubCtx *ssa.Parameter
+	parent map[*ssa.Function]*ssa.MakeClosure // closure -> the MakeClosure that creates it
+	tdReach map[*ssa.Function]bool
+}
+
+type pCtx struct {
+	kc     *kernelCtx
+	units  map[string]*Unit
+	annots map[string]*Block // site annotations by site name
+}
+
+func isRoPkg(path string) bool {
+	return path == roPath || strings.HasPrefix(path, roPath+"/")
+}
+
+func (pc *pCtx) allSites() []*pSite {
+	var out []*pSite
+	var paths []string
+	for p := range pc.kc.w.ByPath {
+		if isRoPkg(p) && !strings.Contains(p, "/examples/") && !strings.HasSuffix(p, "/testing") && !strings.Contains(p, "/internal/") {
+			paths = append(paths, p)
+		}
+	}
+	sort.Strings(paths)
+	for _, p := range paths {
+		fns := pc.kc.w.allFuncs(p)
+		for _, k := range sortedKeys(fns) {
+			fn := fns[k]
+			if fn.Parent() != nil || fn.Blocks == nil {
+				continue
+			}
+			if strings.HasSuffix(pc.kc.w.Prog.Fset.Position(fn.Pos()).Filename, "_test.go") {
+				continue
+			}
+			sites := findSites(fn)
+			for i, s := range sites {
+				name := k
+				if p != roPath {
+					name = strings.TrimPrefix(p, roPath+"/") + "." + k
+				}
+				if len(sites) > 1 {
+					name = fmt.Sprintf("%s#%d", name, i)
+				}
+				ps := &pSite{opSite: s, Name: name, Top: fn, Pkg: p, InTree: map[*ssa.Function]bool{}, parent: map[*ssa.Function]*ssa.MakeClosure{}}
+				for _, c := range s.Closures {
+					ps.InTree[c] = true
+				}
+				for _, f := range closureTree(fn) {
+					for _, b := range f.Blocks {
+						for _, ins := range b.Instrs {
+							if mc, ok := ins.(*ssa.MakeClosure); ok {
+								if cf, ok := mc.Fn.(*ssa.Function); ok {
+									ps.parent[cf] = mc
+								}
+							}
+						}
+					}
+				}
+				for _, prm := range s.Subscribe.Params {
+					if isObserverType(prm.Type()) {
+						ps.Dest = prm
+					}
+					if isContextType(prm.Type()) {
+						ps.SubCtx = prm
+					}
+				}
+				out = append(out, ps)
+			}
+		}
+	}
+	return out
+}
+
+func isContextType(t types.Type) bool {
+	n, ok := t.(*types.Named)
+	return ok && n.Obj().Pkg() != nil && n.Obj().Pkg().Path() == "context" && n.Obj().Name() == "Context"
+}
+
+func namedName(t types.Type) string {
+	if p, ok := t.(*types.Pointer); ok {
+		t = p.Elem()
+	}
+	if n, ok := t.(*types.Named); ok {
+		return n.Obj().Name()
+	}
+	return ""
+}
+
+func isObserverType(t types.Type) bool {
+	switch namedName(t) {
+	case "Observer", "Subscriber", "Subject":
+		return true
+	}
+	return false
+}
+
+func hasMethod(t types.Type, name string) bool {
+	ms := types.NewMethodSet(t)
+	for i := 0; i < ms.Len(); i++ {
+		if ms.At(i).Obj().Name() == name {
+			return true
+		}
+	}
+	return false
+}
+
+// root resolves a value to the allocation / parameter / global it denotes, looking through
+// free-variable bindings, loads of pointers are NOT followed (a load yields a value, not a cell).
+func (s *pSite) root(v ssa.Value) ssa.Value {
+	for i := 0; i < 32; i++ {
+		switch t := v.(type) {
+		case *ssa.FreeVar:
+			fn := t.Parent()
+			mc := s.parent[fn]
+			if mc == nil {
+				return t
+			}
+			idx := -1
+			for j, fv := range fn.FreeVars {
+				if fv == t {
+					idx = j
+				}
+			}
+			if idx < 0 || idx >= len(mc.Bindings) {
+				return t
+			}
+			v = mc.Bindings[idx]
+		case *ssa.FieldAddr:
+			v = t.X
+		case *ssa.IndexAddr:
+			v = t.X
+		case *ssa.ChangeType:
+			v = t.X
+		case *ssa.ChangeInterface:
+			v = t.X
+		case *ssa.MakeInterface:
+			v = t.X
+		default:
+			return v
+		}
+	}
+	return v
+}
+
+// cellOf returns the heap cell (Alloc) a value was loaded from, if it is a direct load of a cell.
+func (s *pSite) cellOf(v ssa.Value) *ssa.Alloc {
+	if u, ok := v.(*ssa.UnOp); ok && u.Op == token.MUL {
+		if a, ok := s.root(u.X).(*ssa.Alloc); ok {
+			return a
+		}
+	}
+	return nil
+}
+
+func (s *pSite) isDest(v ssa.Value) bool {
+	if s.Dest == nil {
+		return false
+	}
+	for i := 0; i < 8; i++ {
+		switch t := v.(type) {
+		case *ssa.Parameter:
+			return t == s.Dest
+		case *ssa.UnOp:
+			if t.Op != token.MUL {
+				return false
+			}
+			a, ok := s.root(t.X).(*ssa.Alloc)
+			if !ok {
+				return false
+			}
+			// the cell holding the destination parameter: every store to it stores the parameter
+			for _, r := range *a.Referrers() {
+				if st, ok := r.(*ssa.Store); ok && st.Addr == a {
+					return st.Val == s.Dest
+				}
+			}
+			return false
+		case *ssa.ChangeInterface:
+			v = t.X
+		case *ssa.MakeInterface:
+			v = t.X
+		case *ssa.TypeAssert:
+			v = t.X
+		default:
+			return false
+		}
+	}
+	return false
+}
+
+func cellName(v ssa.Value) string {
+	switch t := v.(type) {
+	case *ssa.Alloc:
+		if t.Comment != "" {
+			return t.Comment
+		}
+		return t.Name()
+	case *ssa.Parameter:
+		return t.Name()
+	case *ssa.Global:
+		return t.Name()
+	case *ssa.FreeVar:
+		return t.Name()
+	}
+	return v.Name()
+}
+
+// role names a function of the site's closure tree: subscribe, teardown, next@src, ..., or its closure path.
+func (s *pSite) role(fn *ssa.Function) string {
+	if fn == s.Subscribe {
+		return "subscribe"
+	}
+	for _, t := range s.Teardowns {
+		if t == fn {
+			return "teardown"
+		}
+	}
+	kinds := []string{"next", "error", "complete"}
+	for _, t := range s.Triples {
+		for i, a := range t.Args {
+			if mc, ok := a.(*ssa.MakeClosure); ok && mc.Fn == fn {
+				if len(s.Triples) > 1 && t.Source != "" {
+					return kinds[i] + "@" + t.Source
+				}
+				return kinds[i]
+			}
+			if f, ok := a.(*ssa.Function); ok && f == fn {
+				if len(s.Triples) > 1 && t.Source != "" {
+					return kinds[i] + "@" + t.Source
+				}
+				return kinds[i]
+			}
+		}
+	}
+	// nested helper closure: name of the variable it is stored in, else its relative closure path
+	if mc := s.parent[fn]; mc != nil {
+		for _, r := range *mc.Referrers() {
+			if st, ok := r.(*ssa.Store); ok {
+				if a, ok := st.Addr.(*ssa.Alloc); ok && a.Comment != "" {
+					return a.Comment
+				}
+			}
+		}
+	}
+	return strings.TrimPrefix(funcKey(fn), funcKey(s.Subscribe))
+}
+
+func (pc *pCtx) add(prop []string, name, clause string, ok bool, note string, pos string) {
+	status := "discharged"
+	if !ok {
+		status = "failed"
+	}
+	u := pc.units[name]
+	if u == nil {
+		u = &Unit{Name: name, Layer: "P"}
+		pc.units[name] = u
+	}
+	u.Obls = append(u.Obls, OutObl{Name: name, Props: prop, Layer: "P", Clause: clause, Backend: "structural", Status: status, Note: note, Pos: pos})
+}
+
+func runProtocol(kc *kernelCtx, blocks []*Block, only string, want map[string]bool) []*Unit {
+	pc := &pCtx{kc: kc, units: map[string]*Unit{}, annots: map[string]*Block{}}
+	for _, b := range blocks {
+		if b.Kind == "site" {
+			pc.annots[b.Name] = b
+		}
+	}
+	sites := pc.allSites()
+	on := func(p string) bool { return len(want) == 0 || want[p] }
+	for _, s := range sites {
+		if only != "" && !strings.Contains(s.Name, only) {
+			continue
+		}
+		if on("C09") {
+			pc.p1Context(s)
+		}
+		if on("C12") {
+			pc.p3Frame(s)
+		}
+		if on("C03") || on("C14") {
+			pc.p2Release(s)
+		}
+		if on("C02") {
+			pc.p4Mode(s)
+		}
+		if on("C08") {
+			pc.p5Sync(s)
+		}
+	}
+	if on("C12") {
+		pc.p3Lazy(sites, only)
+	}
+	if on("C07") {
+		pc.p6Panics(only)
+	}
+	if on("C01") || on("C02") {
+		pc.f1Implementors()
+	}
+	var names []string
+	for n := range pc.units {
+		names = append(names, n)
+	}
+	sort.Strings(names)
+	var out []*Unit
+	for _, n := range names {
+		u := pc.units[n]
+		// merge obligations with the same name into one (failed if any failed)
+		merged := map[string]*OutObl{}
+		var order []string
+		for i := range u.Obls {
+			o := u.Obls[i]
+			if m, ok := merged[o.Name]; ok {
+				if o.Status == "failed" {
+					m.Status = "failed"
+					m.Note = strings.TrimSpace(m.Note + "; " + o.Note)
+				}
+				m.Paths++
+				continue
+			}
+			oc := o
+			oc.Paths = 1
+			merged[o.Name] = &oc
+			order = append(order, o.Name)
+		}
+		u.Obls = nil
+		for _, k := range order {
+			u.Obls = append(u.Obls, *merged[k])
+		}
+		out = append(out, u)
+	}
+	return out
+}
+
+func (pc *pCtx) annotated(site, key string) (string, bool) {
+	b := pc.annots[site]
+	if b == nil {
+		return "", false
+	}
+	for _, c := range b.Clauses {
+		if c.Kind == key {
+			return c.Text, true
+		}
+	}
+	return "", false
+}
+
+func (pc *pCtx) pos(p token.Pos) string {
+	if !p.IsValid() {
+		return ""
+	}
+	ps := pc.kc.w.Prog.Fset.Position(p)
+	return fmt.Sprintf("%s:%d", shortFile(ps.Filename), ps.Line)
+}
+
+// ---------------------------------------------------------------------------
+// P1: context derivation (C09)
+// ---------------------------------------------------------------------------
+
+type originSet map[string]bool
+
+func (o originSet) add(xs ...string) originSet {
+	for _, x := range xs {
+		o[x] = true
+	}
+	return o
+}
+
+func (o originSet) union(p originSet) originSet {
+	for k := range p {
+		o[k] = true
+	}
+	return o
+}
+
+func (o originSet) list() []string { return sortedStrs(o) }
+
+var ctxAllowed = map[string]bool{"cb": true, "sub": true, "supplied": true}
+
+type originCalc struct {
+	s     *pSite
+	memo  map[ssa.Value]originSet
+	stack map[ssa.Value]bool
+	busy  map[string]bool
+}
+
+func (oc *originCalc) of(v ssa.Value) originSet {
+	if o, ok := oc.memo[v]; ok {
+		return o
+	}
+	if oc.stack[v] {
+		return originSet{}
+	}
+	oc.stack[v] = true
+	o := oc.compute(v)
+	delete(oc.stack, v)
+	oc.memo[v] = o
+	return o
+}
+
+func (oc *originCalc) compute(v ssa.Value) originSet {
+	s := oc.s
+	switch t := v.(type) {
+	case *ssa.Parameter:
+		fn := t.Parent()
+		if fn == s.Subscribe {
+			return originSet{}.add("sub")
+		}
+		if s.InTree[fn] {
+			// callback or local helper closure: helper closures called directly get their callers' origins
+			if calls := oc.directCalls(fn); len(calls) > 0 {
+				idx := -1
+				for i, p := range fn.Params {
+					if p == t {
+						idx = i
+					}
+				}
+				o := originSet{}
+				for _, c := range calls {
+					if idx < len(c.Call.Args) {
+						o.union(oc.of(c.Call.Args[idx]))
+					}
+				}
+				return o
+			}
+			return originSet{}.add("cb")
+		}
+		// parameter of the operator constructor / func(source)
+		return originSet{}.add("supplied")
+	case *ssa.Const:
+		if t.Value == nil {
+			return originSet{}.add("nil")
+		}
+		return originSet{}.add("const")
+	case *ssa.Phi:
+		o := originSet{}
+		for _, e := range t.Edges {
+			o.union(oc.of(e))
+		}
+		return o
+	case *ssa.ChangeInterface:
+		return oc.of(t.X)
+	case *ssa.MakeInterface:
+		return oc.of(t.X)
+	case *ssa.ChangeType:
+		return oc.of(t.X)
+	case *ssa.TypeAssert:
+		return oc.of(t.X)
+	case *ssa.Extract:
+		return oc.ofCallResult(t.Tuple, t.Index)
+	case *ssa.Call:
+		return oc.ofCallResult(t, 0)
+	case *ssa.UnOp:
+		if t.Op == token.MUL {
+			return oc.ofLoad(t.X)
+		}
+		if t.Op == token.ARROW {
+			return originSet{}.add("chan")
+		}
+	case *ssa.Field:
+		return oc.ofField(t.X, t.Field)
+	case *ssa.Lookup, *ssa.Index:
+		return originSet{}.add("unknown")
+	case *ssa.FreeVar, *ssa.Alloc:
+		return oc.ofLoad(t)
+	}
+	return originSet{}.add("unknown")
+}
+
+// directCalls lists the call instructions that call closure fn directly (through the cell it is stored in).
+func (oc *originCalc) directCalls(fn *ssa.Function) []*ssa.Call {
+	s := oc.s
+	mc := s.parent[fn]
+	if mc == nil {
+		return nil
+	}
+	var cells []*ssa.Alloc
+	direct := []ssa.Value{mc}
+	for _, r := range *mc.Referrers() {
+		if st, ok := r.(*ssa.Store); ok {
+			if a, ok := s.root(st.Addr).(*ssa.Alloc); ok {
+				cells = append(cells, a)
+			}
+		}
+	}
+	var out []*ssa.Call
+	for f := range s.InTree {
+		for _, b := range f.Blocks {
+			for _, ins := range b.Instrs {
+				c, ok := ins.(*ssa.Call)
+				if !ok || c.Call.IsInvoke() {
+					continue
+				}
+				val := c.Call.Value
+				for _, d := range direct {
+					if val == d {
+						out = append(out, c)
+					}
+				}
+				if a := s.cellOf(val); a != nil {
+					for _, cell := range cells {
+						if a == cell {
+							out = append(out, c)
+						}
+					}
+				}
+			}
+		}
+	}
+	return out
+}
+
+func (oc *originCalc) ofCallResult(v ssa.Value, idx int) originSet {
+	call, ok := v.(*ssa.Call)
+	if !ok {
+		return originSet{}.add("unknown")
+	}
+	c := call.Common()
+	if f := c.StaticCallee(); f != nil {
+		pkg := pkgPathOf(f)
+		name := f.Name()
+		if o := f.Origin(); o != nil {
+			name = o.Name()
+		}
+		if pkg == "context" {
+			switch name {
+			case "Background", "TODO":
+				return originSet{}.add("fresh")
+			case "WithValue", "WithCancel", "WithTimeout", "WithDeadline", "WithCancelCause", "WithoutCancel", "WithTimeoutCause", "WithDeadlineCause":
+				if idx == 0 && len(c.Args) > 0 {
+					return oc.of(c.Args[0])
+				}
+			}
+		}
+		if pkg == "github.com/samber/lo" && len(name) == 2 && name[0] == 'T' {
+			// tuple constructor: the struct carries the origin of each component; asked for the whole value
+			o := originSet{}
+			for _, a := range c.Args {
+				if isContextType(a.Type()) {
+					o.union(oc.of(a))
+				}
+			}
+			return o
+		}
+		if pkg == "sync/atomic" && f.Signature.Recv() != nil && name == "Load" && len(c.Args) == 1 {
+			// atomic.Value / atomic.Pointer used as a cell: union of everything stored into it
+			if al, ok := oc.s.root(c.Args[0]).(*ssa.Alloc); ok {
+				o := originSet{}
+				found := false
+				for fn := range oc.s.InTree {
+					for _, b := range fn.Blocks {
+						for _, ins := range b.Instrs {
+							if c2, ok := ins.(*ssa.Call); ok {
+								if f2 := c2.Common().StaticCallee(); f2 != nil && pkgPathOf(f2) == "sync/atomic" && f2.Name() == "Store" && len(c2.Common().Args) == 2 && oc.s.root(c2.Common().Args[0]) == ssa.Value(al) {
+									o.union(oc.of(c2.Common().Args[1]))
+									found = true
+								}
+							}
+						}
+					}
+				}
+				if found {
+					return o
+				}
+			}
+			return originSet{}.add("unknown")
+		}
+		// library helper returning a context derived from its context arguments
+		o := originSet{}
+		n := 0
+		for _, a := range c.Args {
+			if isContextType(a.Type()) {
+				o.union(oc.of(a))
+				n++
+			}
+		}
+		if n > 0 {
+			return o
+		}
+		return originSet{}.add("unknown")
+	}
+	if c.IsInvoke() {
+		// method returning a context (rare): derived from receiver
+		return originSet{}.add("unknown")
+	}
+	// call of a function value: user callback -> derived from the contexts passed to it
+	o := originSet{}
+	n := 0
+	for _, a := range c.Args {
+		if isContextType(a.Type()) {
+			o.union(oc.of(a))
+			n++
+		}
+	}
+	if n > 0 {
+		return o
+	}
+	return originSet{}.add("user")
+}
+
+// ofLoad: origins of the values stored in the cell addr points to.
+func (oc *originCalc) ofLoad(addr ssa.Value) originSet {
+	s := oc.s
+	switch a := addr.(type) {
+	case *ssa.FieldAddr:
+		// field of a struct held in a slice element
+		if ia, ok := a.X.(*ssa.IndexAddr); ok {
+			if al := s.cellOf(ia.X); al != nil {
+				return oc.sliceElemOrigins(al, a.Field)
+			}
+			return oc.sliceValueElemOrigins(ia.X, a.Field)
+		}
+		// field of a struct cell: stores to that field, or whole-struct stores
+		base := s.root(a.X)
+		if al, ok := base.(*ssa.Alloc); ok {
+			return oc.cellOrigins(al, a.Field, true)
+		}
+		return originSet{}.add("unknown")
+	case *ssa.IndexAddr:
+		// element of a slice held in a cell
+		if al := s.cellOf(a.X); al != nil {
+			return oc.sliceElemOrigins(al, -1)
+		}
+		return originSet{}.add("unknown")
+	}
+	base := s.root(addr)
+	switch b := base.(type) {
+	case *ssa.Alloc:
+		return oc.cellOrigins(b, -1, false)
+	case *ssa.Global:
+		return originSet{}.add("global")
+	case *ssa.Parameter:
+		return oc.of(b)
+	}
+	return originSet{}.add("unknown")
+}
+
+// cellOrigins: union of origins of everything stored into the cell (field < 0: the whole value).
+func (oc *originCalc) cellOrigins(al *ssa.Alloc, field int, isField bool) originSet {
+	s := oc.s
+	o := originSet{}
+	stores := 0
+	visit := func(st *ssa.Store) {
+		stores++
+		if fa, ok := st.Addr.(*ssa.FieldAddr); ok {
+			if !isField || fa.Field != field {
+				return
+			}
+			o.union(oc.of(st.Val))
+			return
+		}
+		// whole-value store
+		if isField {
+			o.union(oc.ofFieldOfValue(st.Val, field))
+		} else {
+			o.union(oc.of(st.Val))
+		}
+	}
+	for f := range s.InTree {
+		for _, b := range f.Blocks {
+			for _, ins := range b.Instrs {
+				if st, ok := ins.(*ssa.Store); ok && s.root(st.Addr) == ssa.Value(al) {
+					visit(st)
+				}
+			}
+		}
+	}
+	// stores outside the subscription tree (constructor level)
+	for _, f := range closureTree(s.Top) {
+		if s.InTree[f] {
+			continue
+		}
+		for _, b := range f.Blocks {
+			for _, ins := range b.Instrs {
+				if st, ok := ins.(*ssa.Store); ok && s.root(st.Addr) == ssa.Value(al) {
+					visit(st)
+				}
+			}
+		}
+	}
+	// a cell of context type (or a tuple holding one) starts as the zero value unless it is
+	// initialised by a store that dominates every use; we only recognise "stored in the allocating
+	// block right after allocation" as initialisation
+	if !oc.initialised(al) {
+		o.add("zero")
+	}
+	return o
+}
+
+func (oc *originCalc) initialised(al *ssa.Alloc) bool {
+	b := al.Block()
+	seen := false
+	for _, ins := range b.Instrs {
+		if ins == ssa.Instruction(al) {
+			seen = true
+			continue
+		}
+		if !seen {
+			continue
+		}
+		if st, ok := ins.(*ssa.Store); ok && st.Addr == ssa.Value(al) {
+			return true
+		}
+		if _, ok := ins.(*ssa.MakeClosure); ok {
+			return false
+		}
+	}
+	return false
+}
+
+func (oc *originCalc) ofField(x ssa.Value, field int) originSet {
+	return oc.ofFieldOfValue(x, field)
+}
+
+// ofFieldOfValue: origins of field `field` of struct value v.
+func (oc *originCalc) ofFieldOfValue(v ssa.Value, field int) originSet {
+	switch t := v.(type) {
+	case *ssa.Call:
+		if f := t.Common().StaticCallee(); f != nil && pkgPathOf(f) == "github.com/samber/lo" && len(f.Name()) >= 2 && f.Name()[0] == 'T' {
+			if field < len(t.Common().Args) {
+				return oc.of(t.Common().Args[field])
+			}
+		}
+		return originSet{}.add("unknown")
+	case *ssa.UnOp:
+		if t.Op == token.MUL {
+			switch a := t.X.(type) {
+			case *ssa.IndexAddr:
+				if al := oc.s.cellOf(a.X); al != nil {
+					return oc.sliceElemOrigins(al, field)
+				}
+				// slice value not held in a cell (e.g. local copy): trace the slice value
+				return oc.sliceValueElemOrigins(a.X, field)
+			default:
+				if al, ok := oc.s.root(t.X).(*ssa.Alloc); ok {
+					return oc.cellOrigins(al, field, true)
+				}
+			}
+		}
+		if t.Op == token.ARROW {
+			return originSet{}.add("chan")
+		}
+	case *ssa.Phi:
+		o := originSet{}
+		for _, e := range t.Edges {
+			o.union(oc.ofFieldOfValue(e, field))
+		}
+		return o
+	case *ssa.Const:
+		return originSet{}.add("zero")
+	case *ssa.Extract:
+		return originSet{}.add("unknown")
+	}
+	return originSet{}.add("unknown")
+}
+
+// sliceElemOrigins: origins of (field of) the elements ever put into the slice held by cell al.
+func (oc *originCalc) sliceElemOrigins(al *ssa.Alloc, field int) originSet {
+	s := oc.s
+	o := originSet{}
+	key := fmt.Sprintf("%p/%d", al, field)
+	if oc.busy == nil {
+		oc.busy = map[string]bool{}
+	}
+	if oc.busy[key] {
+		return o
+	}
+	oc.busy[key] = true
+	defer delete(oc.busy, key)
+	for f := range s.InTree {
+		for _, b := range f.Blocks {
+			for _, ins := range b.Instrs {
+				st, ok := ins.(*ssa.Store)
+				if !ok {
+					continue
+				}
+				// buffer = append(buffer, x...) : Store(cell, append(...))
+				if s.root(st.Addr) == ssa.Value(al) {
+					if _, isIdx := st.Addr.(*ssa.IndexAddr); !isIdx {
+						o.union(oc.sliceValueElemOrigins(st.Val, field))
+					}
+				}
+				// buffer[i] = x
+				if ia, ok := st.Addr.(*ssa.IndexAddr); ok {
+					if s.cellOf(ia.X) == al {
+						if field < 0 {
+							o.union(oc.of(st.Val))
+						} else {
+							o.union(oc.ofFieldOfValue(st.Val, field))
+						}
+					}
+				}
+			}
+		}
+	}
+	return o
+}
+
+// sliceValueElemOrigins: origins of the elements of a slice value (append chains, sub-slices, make).
+func (oc *originCalc) sliceValueElemOrigins(v ssa.Value, field int) originSet {
+	switch t := v.(type) {
+	case *ssa.Call:
+		if b, ok := t.Common().Value.(*ssa.Builtin); ok && b.Name() == "append" {
+			o := oc.sliceValueElemOrigins(t.Common().Args[0], field)
+			o.union(oc.sliceValueElemOrigins(t.Common().Args[1], field))
+			return o
+		}
+		return originSet{}.add("unknown")
+	case *ssa.Slice:
+		// slice of a varargs array or of another slice
+		if al, ok := t.X.(*ssa.Alloc); ok {
+			o := originSet{}
+			for _, r := range *al.Referrers() {
+				if ia, ok := r.(*ssa.IndexAddr); ok {
+					for _, r2 := range *ia.Referrers() {
+						if st, ok := r2.(*ssa.Store); ok {
+							if field < 0 {
+								o.union(oc.of(st.Val))
+							} else {
+								o.union(oc.ofFieldOfValue(st.Val, field))
+							}
+						}
+					}
+				}
+			}
+			return o
+		}
+		return oc.sliceValueElemOrigins(t.X, field)
+	case *ssa.UnOp:
+		if t.Op == token.MUL {
+			if al := oc.s.cellOf(t); al != nil {
+				return oc.sliceElemOrigins(al, field)
+			}
+		}
+	case *ssa.MakeSlice:
+		return originSet{}
+	case *ssa.Const:
+		return originSet{}
+	case *ssa.Phi:
+		o := originSet{}
+		for _, e := range t.Edges {
+			o.union(oc.sliceValueElemOrigins(e, field))
+		}
+		return o
+	}
+	return originSet{}.add("unknown")
+}
+
+var emitMethods = map[string]bool{"Next": true, "NextWithContext": true, "Error": true, "ErrorWithContext": true, "Complete": true, "CompleteWithContext": true}
+
+func (pc *pCtx) p1Context(s *pSite) {
+	oc := &originCalc{s: s, memo: map[ssa.Value]originSet{}, stack: map[ssa.Value]bool{}}
+	props := []string{"C09"}
+	exempt, _ := pc.annotated(s.Name, "ctx-exempt")
+	for _, fn := range s.Closures {
+		role := s.role(fn)
+		for _, b := range fn.Blocks {
+			for _, ins := range b.Instrs {
+				call, ok := ins.(ssa.CallInstruction)
+				if !ok {
+					continue
+				}
+				c := call.Common()
+				if !c.IsInvoke() {
+					continue
+				}
+				m := c.Method.Name()
+				recv := cellName(s.root(stripLoad(c.Value)))
+				var ctxArg ssa.Value
+				kind := ""
+				switch {
+				case emitMethods[m] && (isObserverType(c.Value.Type()) || hasMethod(c.Value.Type(), "NextWithContext")):
+					if strings.HasSuffix(m, "WithContext") {
+						ctxArg = c.Args[0]
+						kind = "emit"
+					} else {
+						kind = "emit-noctx"
+					}
+				case m == "SubscribeWithContext" || m == "ConnectWithContext":
+					ctxArg = c.Args[0]
+					kind = "subscribe"
+				case m == "Subscribe" && len(c.Args) == 1 && isObserverType(c.Args[0].Type()):
+					kind = "subscribe-noctx"
+				case m == "Connect" && len(c.Args) == 0 && hasMethod(c.Value.Type(), "ConnectWithContext"):
+					kind = "subscribe-noctx"
+				default:
+					continue
+				}
+				name := fmt.Sprintf("P1/%s/%s/%s.%s", s.Name, role, recv, m)
+				if kind == "emit-noctx" || kind == "subscribe-noctx" {
+					// the context-less method substitutes context.Background(): only acceptable in context-less sites
+					ok := s.SubCtx == nil
+					pc.add(props, name, "library code inside a context-aware subscription uses the WithContext form", ok, fmt.Sprintf("%s.%s drops the context (uses context.Background())", recv, m), pc.pos(ins.Pos()))
+					continue
+				}
+				os := oc.of(ctxArg)
+				var bad []string
+				for _, o := range os.list() {
+					if ctxAllowed[o] {
+						continue
+					}
+					if o == "zero" && pc.machineCovers(s, role) {
+						// the stored context is pinned by the operator's machine contract (its ctx-nonnil obligation)
+						continue
+					}
+					if o == "zero" {
+						if txt, ok := pc.annotated(s.Name, "assume-ctx-set"); ok && strings.HasPrefix(strings.TrimSpace(txt)+" ", role+" ") {
+							continue
+						}
+					}
+					if kind == "subscribe" && o == "supplied" {
+						continue
+					}
+					bad = append(bad, o)
+				}
+				if kind == "subscribe" {
+					// a source must be subscribed with the subscriber context (or, for inner sources, the notification's)
+					if s.SubCtx == nil {
+						bad = nil
+					}
+				}
+				if exempt != "" && strings.Contains(" "+strings.SplitN(exempt, ":", 2)[0]+" ", " "+role+" ") {
+					bad = nil
+				}
+				okk := len(bad) == 0
+				pc.add(props, name, "the context passed on is derived from the callback's / subscriber's context (or stored with the value, or returned by a user callback); never fresh, never nil", okk,
+					fmt.Sprintf("origins %v of the context passed to %s.%s in %s", os.list(), recv, m, role), pc.pos(ins.Pos()))
+			}
+		}
+	}
+}
+
+// machineCovers: the site's operator has a machine contract tagged C09 with a case for this role.
+func (pc *pCtx) machineCovers(s *pSite, role string) bool {
+	for _, b := range pc.kc.blocks {
+		if b.Kind != "operator" || b.Pkg != s.Pkg || b.Name != funcKey(s.Top) {
+			continue
+		}
+		tagged := false
+		for _, p := range b.props() {
+			if p == "C09" {
+				tagged = true
+			}
+		}
+		if !tagged {
+			continue
+		}
+		for _, c := range b.all("on") {
+			if strings.HasPrefix(strings.TrimSpace(c.Text), role+"(") || strings.HasPrefix(strings.TrimSpace(c.Text), role+" (") {
+				return true
+			}
+		}
+	}
+	return false
+}
+
+func stripLoad(v ssa.Value) ssa.Value {
+	if u, ok := v.(*ssa.UnOp); ok && u.Op == token.MUL {
+		return u.X
+	}
+	return v
+}
